@@ -86,6 +86,10 @@ def parse_rhs(rhs, entry_rx, xname, what):
         alpha = True
         rhs = rhs[len("alpha*"):]
     conj = False
+    # the two factors may come in either order (the scalars commute): put the x factor last
+    m = re.fullmatch(r"(%s\[%s\])\*(.*)" % (xname, ID), rhs)
+    if m:
+        rhs = m.group(2) + "*" + m.group(1)
     m = re.fullmatch(r"conjugateComplex\((.*?)\)\*(.*)", rhs)
     if m:
         conj = True
@@ -116,20 +120,41 @@ def dense_sig(body, name):
     b = re.sub(r"DUNE_ASSERT_BOUNDS\((?:[^()]|\([^()]*\))*\)\s*;", "", b)
     b = re.sub(r"using\s+y_field_type\s*=\s*typename\s+FieldTraits<Y>::field_type\s*;", "", b)
     s = squeeze(b)
+    # loop header: any index type; bound rows()/cols() or the aliases N()/M(), optionally through this->
+    s = re.sub(r"for\((?:std::size_t|size_type|typenameMAT::size_type|int|unsigned|auto)(?=%s=0;)" % ID, "for(size_type", s)
+    s = re.sub(r"<(?:this->)?N\(\);", "<rows();", s)
+    s = re.sub(r"<(?:this->)?M\(\);", "<cols();", s)
+    s = re.sub(r"<this->(rows|cols)\(\);", r"<\1();", s)
     loop = r"for\(size_type(%s)=0;(%s)<(rows|cols)\(\);(?:\+\+(%s)|(%s)\+\+)\)" % (ID, ID, ID, ID)
-    m = re.fullmatch(loop + r"(\{?)(.*?)" + loop + r"(.*?);(\}?)", s)
+    def strip_braces(t):
+        if t.startswith("{"):
+            if not t.endswith("}"):
+                raise TranslateError("%s: unbalanced loop body: %r" % (what, s))
+            return t[1:-1], True
+        return t, False
+    m = re.match(loop, s)
     if not m:
         raise TranslateError("%s: loop nest outside the grammar: %r" % (what, s))
-    (v1, v1b, b1, v1c, v1d, ob, init, v2, v2b, b2, v2c, v2d, stmt, cb) = m.groups()
+    v1, v1b, b1, v1c, v1d = m.groups()
+    rest, braced = strip_braces(s[m.end():])
+    init = ""
+    if not rest.startswith("for("):
+        if not braced or ";" not in rest:
+            raise TranslateError("%s: statement before the inner loop outside the grammar: %r" % (what, s))
+        init, rest = rest[:rest.index(";") + 1], rest[rest.index(";") + 1:]
+    m = re.match(loop, rest)
+    if not m:
+        raise TranslateError("%s: inner loop outside the grammar: %r" % (what, s))
+    v2, v2b, b2, v2c, v2d = m.groups()
+    stmt, _ = strip_braces(rest[m.end():])
+    if not stmt.endswith(";") or stmt.count(";") != 1:
+        raise TranslateError("%s: inner loop body is not a single statement: %r" % (what, s))
+    stmt = stmt[:-1]
     if v1b != v1 or (v1c or v1d) != v1 or v2b != v2 or (v2c or v2d) != v2 or v1 == v2:
         raise TranslateError("%s: loop headers inconsistent: %r" % (what, s))
-    if (ob == "{") != (cb == "}"):
-        raise TranslateError("%s: braces of the outer loop body: %r" % (what, s))
     zero = False
     if init:
-        if ob != "{":
-            raise TranslateError("%s: statement before the inner loop without braces: %r" % (what, s))
-        if init == "yy[%s]=y_field_type(0);" % v1:
+        if re.fullmatch(r"yy\[%s\]=(?:0|(?:%s|typenameFieldTraits<Y>::field_type)\(0\));" % (re.escape(v1), ID), init):
             zero = True
         else:
             raise TranslateError("%s: statement before the inner loop outside the grammar: %r" % (what, init))
